@@ -101,6 +101,8 @@ func init() {
 		Rule: "a real session with a blocklist fetched (and re-fetched every 20 s) from a scripted HTTP server whose list changes in stages (overlapping, nested, /0../32, comments, malformed lines, refused lists), trackers (HTTP+UDP) at addresses that become blocked, and 3-10 candidate peers offered through tracker replies, PEX, DHT-stub injection, manual adds and incoming connections, incl. the client's own address, port 0 and a corrupting peer; the download can never finish so the client keeps dialling; oracles over the transport log against a linear scan of the list(s) possibly in effect; non-trivial if a handshake completed or more than two dials happened; distinct = distinct event-trace hashes among non-trivial runs"}
 	props["C19"] = &propCfg{Scenarios: []scenarioRef{{"private", 1}}, Level: "exploration",
 		Rule: "same world with the private key encoded as i1e / 1:1 / i2e / i-1e / 3:yes / le / de / 1:0 / i0e / 0: / absent, DHT stub and PEX enabled or not, configured private peer-id prefix / client version / user agent, .torrent or magnet start; the client's own classification (Stats().Private) selects the private oracles: no DHT call for the info-hash, no AddNode from port messages, DHT/PEX-only addresses never dialled nor stored, no PEX sent, Magnet() refused, private metadata from a magnet refused with nothing allocated, identity strings as configured; non-trivial if a handshake completed or more than two dials happened; distinct = distinct event-trace hashes among non-trivial runs"}
+	props["C14"] = &propCfg{Scenarios: []scenarioRef{{"registry", 1}}, OwnsCrash: true, Level: "exploration",
+		Rule: "1-4 concurrent API clients add (valid/invalid .torrent, magnet, explicit colliding ids), remove, start, stop, add trackers, list and get torrents in one real session with 2-5 ports, with seeded yields before every mutex acquisition in rain; per phase the recorded invoke/return history is checked with porcupine against a sequential registry model (unique ids, distinct ports, capacity), then quiescent invariants (ids unique, ports distinct and in range, free+owned=range, session == resume DB buckets), CompactDatabase + reopen of the compacted file, Close + NewSession on the same DB with field-by-field comparison, and a resumer Write/Read round trip of 20 generated records; non-trivial always (each run executes >=3 operations and a restart); distinct = distinct event-trace hashes"}
 	props["C15"] = &propCfg{Scenarios: []scenarioRef{{"trackers", 1}}, Level: "exploration",
 		Rule: "1-3 torrents announcing to 1-3 tiers of scripted HTTP and UDP trackers whose reply scripts are generated (ok with any 32-bit interval / min interval or none, failure with retry-in, 4xx/5xx, garbage, oversize, no reply, delays; UDP: wrong transaction id, short, duplicate, datagram loss/duplication, connection-id expiry), down windows, start/stop/announce commands, optional seed so that 'completed' happens; every announce is checked online (info-hash, port, peer id vs handshake, counters, event discipline per run, spacing); non-trivial if more than two announces were received; distinct = distinct event-trace hashes among non-trivial runs"}
 	props["C16"] = &propCfg{Scenarios: []scenarioRef{{"trackers", 1}}, OwnsCrash: true, Level: "exploration",
@@ -113,8 +115,8 @@ func init() {
 		Rule: "seeding plans from the seed: layout, read-cache block size/capacity/TTL, parallel reads, request-queue and unchoke limits, partial seed, disk read errors, 1-5 scripted leechers issuing generated requests (aligned, unaligned, crossing cache-block multiples, invalid, for missing pieces, while choked, cancels); non-trivial if at least one block was received and checked; distinct = distinct event-trace hashes among non-trivial runs"}
 	props["C11"] = &propCfg{Scenarios: []scenarioRef{{"seeding", 2}, {"transfer_byz", 2}, {"transfer_clean", 1}}, Level: "exploration",
 		Rule: "every byte the SUT emits to a scripted peer passes a strict decoder under PRNG fragmentation (handshake, core, fast and extension messages, ut_metadata, PEX); seeding runs also compare the upload counter with the piece payload bytes seen by a socket tap; non-trivial if a piece was written to disk or a block was uploaded; distinct = distinct event-trace hashes among non-trivial runs"}
-	props["C09"] = &propCfg{Scenarios: []scenarioRef{{"transfer_byz", 3}, {"transfer_clean", 1}}, Level: "exploration",
-		Rule: "each request a scripted peer receives is checked against that peer's own view (advertised pieces, choke state / allowed-fast, haves sent by the SUT, one piece per peer, request-queue limit) and Stats().Pieces.Available against the union of settled peers; non-trivial if at least one piece write happened; distinct = distinct event-trace hashes among non-trivial runs"}
+	props["C09"] = &propCfg{Scenarios: []scenarioRef{{"transfer_byz", 2}, {"picker", 3}, {"transfer_clean", 1}}, Level: "exploration",
+		Rule: "each request a scripted peer receives is checked against that peer's own view (advertised pieces, choke state / allowed-fast, haves sent by the SUT, one piece per peer, request-queue limit), the number of peers at which the SUT keeps un-cancelled block requests for one piece outstanding for >2 s (all of them caught up with the SUT's stream) against the end-game duplicate limit, and Stats().Pieces.Available against the union of settled peers; non-trivial if at least one piece write happened; distinct = distinct event-trace hashes among non-trivial runs"}
 	props["C01"] = &propCfg{Scenarios: []scenarioRef{{"transfer_byz", 4}, {"transfer_clean", 1}}, Level: "exploration",
 		Rule: "plans generated from the seed with byzantine peers / faulty web seeds / stop-start commands; non-trivial if at least one piece write reached the simulated disk; distinct = distinct event-trace hashes among non-trivial runs"}
 }
